@@ -93,11 +93,19 @@ fn w(name: &str, specs: Vec<Spec>, observable: Vec<usize>, max_obs: usize, len: 
 
 /// The graph templates shared by the value-carrying properties. `l` = history length.
 pub fn graph_templates(prefix: &str, l: usize, ops: Ops, mon: Monitors) -> Vec<Box<dyn Scenario>> {
+    graph_templates_x(prefix, l, 0, ops, mon)
+}
+
+/// `gap_extra`: additional history length for the two small templates whose interesting
+/// histories (unobserve, change, re-observe) are long
+pub fn graph_templates_x(prefix: &str, l: usize, gap_extra: usize, ops: Ops, mon: Monitors) -> Vec<Box<dyn Scenario>> {
     use Spec::*;
     let n = |s: &str| format!("{prefix}/{s}");
     vec![
         // pair var -> map_ref(.0) -> map ; second consumer keeps the var needed
-        w(&n("mapref_chain"), vec![PVar, Fst(0), Map(1), PMap(0)], vec![2, 3], 2, l, ops.clone(), mon.clone()),
+        w(&n("mapref_chain"), vec![PVar, Fst(0), Map(1), PMap(0)], vec![2, 3], 2, l + gap_extra, ops.clone(), mon.clone()),
+        // depend_on with a consumer above it and another way to keep its input needed
+        w(&n("dependon_gap"), vec![Var, Var, DependOn(0, 1), Map(2)], vec![3, 0], 2, l + gap_extra, ops.clone(), mon.clone()),
         // map_ref over map_ref
         w(&n("mapref_nested"), vec![PVar, Fst(0), RefId(1), Map(2), PMap(0)], vec![3, 4], 2, l, ops.clone(), mon.clone()),
         // diamond
@@ -130,7 +138,7 @@ pub fn graph_templates(prefix: &str, l: usize, ops: Ops, mon: Monitors) -> Vec<B
 pub fn scenarios(prop: &str, tier: Tier) -> Vec<Box<dyn Scenario>> {
     let q = tier == Tier::Quick;
     match prop {
-        "C01" => graph_templates("C01", if q { 6 } else { 8 }, ops_basic(), Monitors { c01: true, ..Monitors::default() }),
+        "C01" => graph_templates_x("C01", if q { 6 } else { 8 }, if q { 2 } else { 1 }, ops_basic(), Monitors { c01: true, ..Monitors::default() }),
         "C02" => graph_templates("C02", if q { 6 } else { 8 }, ops_basic(), Monitors { c02: true, ..Monitors::default() }),
         "C05" => graph_templates("C05", if q { 6 } else { 8 }, ops_basic(), Monitors { c05: true, ..Monitors::default() }),
         "C07" => graph_templates("C07", if q { 6 } else { 7 }, ops_basic(), Monitors { c07: true, c01: true, ..Monitors::default() }),
@@ -301,7 +309,7 @@ pub fn meta(prop: &str, tier: Tier) -> PropMeta {
         "C01" => PropMeta {
             level: "other",
             functions: engine,
-            bounds: format!("10 graph templates (<=5 nodes, <=2 concurrent observers, <=4 observer slots), every history of {} actions from {{write var (fresh symbolic value; pair vars: both components or second only), observe node, drop observer, disallow observer, stabilise}} closed by a stabilise", l(6, 8)),
+            bounds: format!("11 graph templates (<=5 nodes, <=2 concurrent observers, <=4 observer slots; the map_ref chain and the depend_on template get 2 (quick) / 1 (thorough) more actions), every history of {} actions from {{write var (fresh symbolic value; pair vars: both components or second only), observe node, drop observer, disallow observer, stabilise}} closed by a stabilise", l(6, 8)),
             outside: common_outside,
             assumptions: common_assume,
             rule: "one evaluation = one path of the decision tree (native run of the engine under a decision trail); distinct by construction (DFS never repeats a trail); non-trivial = the path contains at least one solver-decided branch on values with both outcomes feasible",
